@@ -996,6 +996,36 @@ def _rejection(run, rng, vd):
     expect_raise("Vector.fit", "weights is a list, not a tuple", lambda: vd.Vector([vd.Trend(1), vd.Trend(1)]).fit(vcoords, vdata, list(vweights)), lambda: vd.Vector([vd.Trend(1), vd.Trend(1)]).fit(vcoords, vdata, vweights))
     expect_raise("VectorSpline2D.fit", "three data components", lambda: vd.VectorSpline2D(mindist=10.0).fit(vcoords, vdata + (vdata[0],)), lambda: vd.VectorSpline2D(mindist=10.0).fit(vcoords, vdata))
     # block reductions, splitters, windows, coordinates
+    # invalid regions of every size of inversion - bounds swapped, and W above E (S above N) by one ulp up to 1e-6 relative:
+    # a tolerance in the validity test would let the small ones through to every consumer of a region
+    def inverted(r):
+        w, e, s, n = r
+        up = lambda v, rel: float(np.nextafter(v, np.inf)) if rel == 0 else float(v + abs(v) * rel + (rel * 1e-300))  # noqa: E731
+        out = []
+        for rel in (0, 3e-16, 1e-12, 5e-10, 1e-9, 1e-7, 1e-6):
+            out.append(("W above E by %g" % rel if rel else "W one ulp above E", [up(e, rel), e, s, n]))
+            out.append(("S above N by %g" % rel if rel else "S one ulp above N", [w, e, up(n, rel), n]))
+            out.append(("W above W==E by %g" % rel if rel else "W one ulp above E (zero width otherwise)", [up(w, rel), w, s, n]))
+        return [(k, b) for k, b in out if b[0] > b[1] or b[2] > b[3]]
+
+    region_entries = [
+        ("check_region", lambda r: vd.coordinates.check_region(r)),
+        ("grid_coordinates", lambda r: vd.grid_coordinates(r, shape=(3, 3))),
+        ("scatter_points", lambda r: vd.scatter_points(r, 5, random_state=0)),
+        ("inside", lambda r: vd.inside((east, north), r)),
+        ("block_split", lambda r: vd.block_split((east, north), shape=(2, 2), region=r)),
+        ("rolling_window", lambda r: vd.rolling_window((east, north), size=span / 2, shape=(2, 2), region=r)),
+        ("BlockReduce", lambda r: vd.BlockReduce(np.mean, shape=(2, 2), region=r).filter(coords, data)),
+        ("Trend.grid", lambda r: vd.Trend(1).fit(coords, data).grid(region=r, shape=(3, 3))),
+        ("CheckerBoard", lambda r: vd.synthetic.CheckerBoard(region=r).grid(shape=(3, 3))),
+    ]
+    near = inverted(region) + inverted([1000.0, 1000.0 + span, -5.0 - span, -5.0])
+    picks = rng.permutation(len(near))[:12]
+    for j in picks:
+        kind, bad = near[int(j)]
+        for entry, call in region_entries:
+            expect_raise(entry, "invalid region (%s)" % kind, (lambda c, b: lambda: c(b))(call, bad), (lambda c: lambda: c(region))(call))
+        run.count("class:near_inverted_region")
     for kind, c, d, w in variants(coords, data, weights):
         expect_raise("BlockReduce.filter", kind, lambda: vd.BlockReduce(np.average, spacing=sp).filter(c, d, w), lambda: vd.BlockReduce(np.average, spacing=sp).filter(coords, data, weights))
         expect_raise("BlockMean.filter", kind, lambda: vd.BlockMean(spacing=sp).filter(c, d, w), lambda: vd.BlockMean(spacing=sp).filter(coords, data, weights))
